@@ -104,8 +104,14 @@ func serviceRandom(fl *drv.Flags, rng *rand.Rand, w *chain.TraceWriter) {
 		for _, a := range active {
 			if rng.Intn(2) == 0 {
 				rid := a.(string)
-				rec := reqs[rid].(chain.M)
-				ev := svcEvent("Respond", rec["provider"].(string))
+				// an active-index entry without a request record (possible only in a broken
+				// tree) is answered by an arbitrary user: the driver must survive it so that
+				// the trace reaches the clauses
+				who := pick(e.users)
+				if rec, ok := reqs[rid].(chain.M); ok {
+					who = rec["provider"].(string)
+				}
+				ev := svcEvent("Respond", who)
 				ev["req"] = rid
 				ev["okres"] = rng.Intn(4) > 0
 				pending = append(pending, ev)
@@ -246,8 +252,11 @@ func serviceRandom(fl *drv.Flags, rng *rand.Rand, w *chain.TraceWriter) {
 				ctxIDs = append(ctxIDs, "pending")
 			case x < 78 && len(active) > 0:
 				rid := active[rng.Intn(len(active))].(string)
-				rec := reqs[rid].(chain.M)
-				ev := svcEvent("Respond", rec["provider"].(string))
+				who := pick(e.users) // see above: an index entry without a record
+				if rec, ok := reqs[rid].(chain.M); ok {
+					who = rec["provider"].(string)
+				}
+				ev := svcEvent("Respond", who)
 				if rng.Intn(10) == 0 {
 					ev["who"] = u
 				}
